@@ -517,6 +517,10 @@ def check_C11(ctx):
         if d["status"] == "ok":
             tried[d["detail"]["tried"]] += 1
             continue
+        if d["status"] == "inconclusive":
+            # the bounded search did not find a matching order and could not try them all: no verdict (never an alarm)
+            ctx.note("linearizability search inconclusive for a program of %d threads / %d calls after %d candidate orders" % (len(j["threads"]), d["ncalls"], d["detail"].get("tried", 0)))
+            continue
         reader = any(c["op"] == "read" for t in j["threads"] for c in t)
         if d["status"] == "hang" and reader and "C10-read-goroutine" in known:
             # input-side signature: some thread reads through a handle while other threads are active
